@@ -591,7 +591,53 @@ func runC03Case(c *mc.Ctx) {
 		}
 	}
 	c.Note("mixed_case_bech32_bases_with_at_most_4_letters", bfound)
-	c.Space("mixed-case spellings of valid strings whose payload has <= 5 (4) letters: every subset of the letters flipped x prefix in either case", n.Load())
+	// case by LETTER on ordinary strings (every symbol of the alphabet occurs): in the upper-case string
+	// all occurrences of one letter in lower case, and the other way round, for every letter; every
+	// single character of the upper-case string in lower case.  A case test with a slip at one end of
+	// the alphabet ('a', 'z', 'A', 'Z') misses exactly these letters.
+	{
+		try := func(codec, s, near string) {
+			if s == strings.ToUpper(s) || s == strings.ToLower(s) {
+				return
+			}
+			n.Add(1)
+			w := c.Worker()
+			w.Eval()
+			w.State()
+			ok, msg, p := c03Decode(codec, s)
+			if p {
+				c.Violate(codec+"-decoder-panics-on-corrupted-string", "foreign", c03Foreign{Codec: codec, Str: mc.Hex([]byte(s))}, msg)
+			} else if ok {
+				c.Violate(codec+"-accepts-a-mixed-case-spelling", "foreign", c03Foreign{Codec: codec, Str: mc.Hex([]byte(s)), Nearby: near}, fmt.Sprintf("%q is accepted", s))
+			}
+			w.Done()
+		}
+		bb := c03BechBase("bc", 39)
+		for _, base := range [][2]string{{"cashaddr", "bitcoincash:" + c03CashBase("bitcoincash", 42)}, {"cashaddr", "bchtest:" + c03CashBase("bchtest", 61)}, {"bech32", bb}} {
+			lo, up := strings.ToLower(base[1]), strings.ToUpper(base[1])
+			for ch := byte('a'); ch <= 'z'; ch++ {
+				if strings.IndexByte(lo, ch) < 0 {
+					continue
+				}
+				m1, m2 := []byte(up), []byte(lo)
+				for i := range m1 {
+					if lo[i] == ch {
+						m1[i], m2[i] = ch, ch-32
+					}
+				}
+				try(base[0], string(m1), lo)
+				try(base[0], string(m2), lo)
+			}
+			for i := 0; i < len(up); i++ {
+				if up[i] >= 'A' && up[i] <= 'Z' {
+					m := []byte(up)
+					m[i] += 32
+					try(base[0], string(m), lo)
+				}
+			}
+		}
+	}
+	c.Space("mixed-case spellings of valid strings whose payload has <= 5 (4) letters: every subset of the letters flipped x prefix in either case; case by letter and single lower-case characters in upper-case strings", n.Load())
 }
 
 func popcount(m int) int {
